@@ -51,7 +51,19 @@ func genC11(t *rapid.T) *CaseC11 {
 	c.Boxes = []ref.Box{seed}
 	for i := rapid.IntRange(0, 4).Draw(t, "more"); i > 0; i-- {
 		base := c.Boxes[rapid.IntRange(0, len(c.Boxes)-1).Draw(t, "base")]
-		switch rapid.IntRange(0, 3).Draw(t, "rel") {
+		switch rapid.IntRange(0, 4).Draw(t, "rel") {
+		case 4: // same zoom, one index differs in a single (often the top) bit
+			nb := base
+			k := uint(rapid.IntRange(0, int(base.H)-1).Draw(t, "bit"))
+			if rapid.Bool().Draw(t, "topbit") {
+				k = uint(base.H - 1)
+			}
+			if rapid.Bool().Draw(t, "bitY") {
+				nb.Y ^= int64(1) << k
+			} else {
+				nb.X ^= int64(1) << k
+			}
+			c.Boxes = append(c.Boxes, nb)
 		case 0:
 			c.Boxes = append(c.Boxes, base) // repeated
 		case 1: // nested: a child
@@ -374,6 +386,20 @@ func checkC11(c *CaseC11, fl *Fails) {
 }
 
 func sweepC11(tier string, emit func(*CaseC11)) {
+	// every output zoom pair (1..31 x 0..35): four IDs of that zoom that differ only in the top bit of x and / or y
+	// (packed keys that drop a high bit), same vertical index; round trip at the same zooms
+	for h := int64(1); h <= 31; h++ {
+		for v := int64(0); v <= 35; v++ {
+			if tier == "quick" && (h*5+v)%3 != 0 && 2*h+v != 64 && 2*h+v != 63 {
+				continue
+			}
+			top := int64(1) << uint(h-1)
+			x, y := top/3, top/5
+			f := -(int64(1) << uint(v)) / 3
+			bs := []ref.Box{{H: h, X: x, Y: y, V: v, F: f}, {H: h, X: x, Y: y | top, V: v, F: f}, {H: h, X: x | top, Y: y, V: v, F: f}, {H: h, X: x | top, Y: y | top, V: v, F: f}}
+			emit(&CaseC11{Boxes: bs, OutH: h, OutV: v, BackH: h, BackV: v, KeyZoom: h, E: 25})
+		}
+	}
 	if tier != "quick" {
 		// descendants of 5/3/3/5/-1 at (13,10): their pairs were all produced by the big conversion before
 		for _, d := range [][3]int64{{0, 0, 0}, {255, 255, 31}, {17, 200, 5}, {128, 1, 30}} {
